@@ -1,4 +1,5 @@
 import OFCore.Lemmas.HeapClone
+import OFCore.PeriodSpec
 /-!
 # Histories: interleaved runs against runs of one side alone; footprints; reads of a clone
 -/
@@ -135,6 +136,11 @@ theorem bind_of_ok {α β : Type} {m : HM α} {f : α → HM β} {h h1 : Heap} {
 theorem bind_of_error {α β : Type} {m : HM α} {f : α → HM β} {h h1 : Heap} {er : Err} (e : m h = (.error er, h1)) :
     (m >>= f) h = (.error er, h1) := by rw [bind_apply, e]
 
+theorem ofOption_some {α : Type} (e : Err) (a : α) : ofOption e (some a) = pure a := rfl
+theorem ofOption_none {α : Type} (e : Err) : ofOption e (none : Option α) = fail e := rfl
+theorem pure_bind' {α β : Type} (a : α) (f : α → HM β) : (pure a >>= f) = f a := by funext h; rfl
+theorem fail_bind' {α β : Type} (e : Err) (f : α → HM β) : (fail e >>= f) = fail e := by funext h; rfl
+
 theorem rd_eq {h : Heap} {p : Id} {o : Obj} (e : h.get? p = some o) : rd p h = (.ok o, h) := by
   unfold rd; rw [e]
 
@@ -238,5 +244,125 @@ theorem holderFind_pair {rc rs : Nat} {newPop sim : Id} {h h' : Heap} {e e' : Va
         simp only at this
         subst this
         cases r1 <;> rfl
+
+/-! ## hypotheses of the property theorems, and how to check them on a concrete heap -/
+
+/-- what is assumed of the simulation that gets cloned: its region is closed (everything it reaches is its
+own), `persons` is the population listed under the person entity, and that population has no `members` -/
+structure WellFormed (h : Heap) (s : Id) : Prop where
+  closed : Closed s.reg h
+  listed : ∀ so, h.get? s = some (.sim so) → alGet so.pops 0 = some so.persons
+  plain : ∀ so po m, h.get? s = some (.sim so) → h.get? so.persons = some (.pop po) → po.members = some m → False
+
+/-- memory-backed: no holder of the simulation's region has an on-disk storage and no temporary
+directory has been made (`memory_config` unset, or set but not used yet) -/
+structure MemoryBacked (h : Heap) (s : Id) : Prop where
+  noDisk : NoDisk s.reg h
+  noDir : ∀ so, h.get? s = some (.sim so) → so.dir = none
+
+instance (o : Option Id) (P : Id → Prop) [DecidablePred P] : Decidable (∀ d, o = some d → P d) :=
+  match o with
+  | none => isTrue (fun _ e => by cases e)
+  | some d => if h : P d then isTrue (fun _ e => by cases e; exact h) else isFalse (fun f => h (f d rfl))
+
+instance (r : Nat) (o : Obj) : Decidable (InReg r o) := by
+  cases o <;> unfold InReg <;> infer_instance
+
+theorem Closed_iff (r : Nat) (h : Heap) : Closed r h ↔ ∀ o ∈ h[r]?.getD [], InReg r o := by
+  unfold Closed
+  simp only [get?_def]
+  cases h[r]? with
+  | none => simp
+  | some l =>
+    simp only [Option.bind_some, Option.getD_some]
+    constructor
+    · intro c o ho
+      obtain ⟨i, hi, rfl⟩ := List.mem_iff_getElem.mp ho
+      exact c i _ (List.getElem?_eq_getElem hi)
+    · intro f i o hg
+      exact f o (List.mem_of_getElem? hg)
+
+instance (r : Nat) (h : Heap) : Decidable (Closed r h) := decidable_of_iff _ (Closed_iff r h).symm
+
+def wellFormedB (h : Heap) (s : Id) : Bool :=
+  decide (Closed s.reg h) &&
+  match (h.get? s).bind Obj.sim? with
+  | none => true
+  | some so =>
+    decide (alGet so.pops 0 = some so.persons) &&
+    match (h.get? so.persons).bind Obj.pop? with
+    | none => true
+    | some po => po.members.isNone
+
+theorem WellFormed.ofB {h : Heap} {s : Id} (hb : wellFormedB h s = true) : WellFormed h s := by
+  unfold wellFormedB at hb
+  simp only [Bool.and_eq_true, decide_eq_true_eq] at hb
+  obtain ⟨hc, hrest⟩ := hb
+  refine ⟨hc, fun so hso => ?_, fun so po m hso hpo hm => ?_⟩
+  · simp only [hso, Option.bind_some, Obj.sim?, Bool.and_eq_true, decide_eq_true_eq] at hrest
+    exact hrest.1
+  · simp only [hso, Option.bind_some, Obj.sim?, Bool.and_eq_true, decide_eq_true_eq, hpo, Obj.pop?, hm] at hrest
+    exact absurd hrest.2 (by simp)
+
+def memoryBackedB (h : Heap) (s : Id) : Bool :=
+  (h[s.reg]?.getD []).all (fun o => match o.holder? with | none => true | some ho => ho.disk.isNone)
+  && match (h.get? s).bind Obj.sim? with
+     | none => true
+     | some so => so.dir.isNone
+
+theorem MemoryBacked.ofB {h : Heap} {s : Id} (hb : memoryBackedB h s = true) : MemoryBacked h s := by
+  unfold memoryBackedB at hb
+  simp only [Bool.and_eq_true, List.all_eq_true] at hb
+  obtain ⟨h1, h2⟩ := hb
+  refine ⟨fun q ho hq hg => ?_, fun so hso => ?_⟩
+  · rw [get?_def, hq] at hg
+    cases hl : h[s.reg]? with
+    | none => rw [hl] at hg; cases hg
+    | some l =>
+      rw [hl] at hg h1
+      have := h1 _ (List.mem_of_getElem? hg)
+      simp only [Obj.holder?] at this
+      cases hd : ho.disk with
+      | none => rfl
+      | some d => rw [hd] at this; cases this
+  · simp only [hso, Option.bind_some, Obj.sim?] at h2
+    cases hd : so.dir with
+    | none => rfl
+    | some d => rw [hd] at h2; cases h2
+
+/-- the two regions after `clone()`: distinct, and both closed when the original is memory-backed -/
+theorem clone_regions {h : Heap} {s : Id} {tr : Bool} {h' : Heap} {c : Id} (hwf : WellFormed h s)
+    (hmem : MemoryBacked h s) (hc : cloneSim s tr h = (.ok c, h')) :
+    s.reg ≠ c.reg ∧ Closed s.reg h' ∧ Closed c.reg h' := by
+  have sc := cloneSim_spec hwf.closed hc
+  have hne : s.reg ≠ h.length := Nat.ne_of_lt sc.lt
+  obtain ⟨so, _, _, _, _, a1, _, _, _, _, _, _, _, a9⟩ := sc.ex
+  exact ⟨by rw [sc.reg]; exact hne, hwf.closed.others sc.others hne,
+    a9 hmem.noDisk (hmem.noDir so a1) (fun po m hpo hm => hwf.plain so po m a1 hpo hm)⟩
+
+/-! ## the example used beside the property theorems
+
+Three persons in two groups; an input, a person formula, a group sum, an eternal input; the original
+has an input and a cached value when it is cloned. -/
+
+def exSys : Sys := [⟨0, .month, 0, none⟩, ⟨0, .month, 5, some (3, [⟨2, 0, .same, .same⟩])⟩,
+  ⟨1, .month, 0, some (0, [⟨1, 0, .members, .same⟩])⟩, ⟨0, .eternity, 7, none⟩]
+def exSpec : SimSpec := ⟨3, [⟨1, 2, [0, 0, 1]⟩], none⟩
+def exM1 : Period := ⟨.month, ⟨2018, 1, 1⟩, 1⟩
+def exM2 : Period := ⟨.month, ⟨2018, 2, 1⟩, 1⟩
+def exS : Id := ⟨0, 0⟩
+def exC : Id := ⟨1, 0⟩
+/-- the original when it is cloned -/
+def exH : Heap := runSide exSys 40 exS [.setInput 0 exM1 [1, 2, 3], .calculate 1 exM1] (build exSpec []).2
+/-- the heap after `clone()` -/
+def exH' : Heap := (cloneSim exS false exH).2
+def exOps : List (Side × Op) :=
+  [(.clone, .calculate 2 exM1), (.orig, .setInput 0 exM1 [4, 4, 4]), (.clone, .deleteArrays 0 none),
+   (.orig, .calculate 1 exM2), (.clone, .setTrace true), (.clone, .calculate 3 exM2)]
+
+/-- the same simulation with `MemoryConfig(max_memory_occupation=0)`: its input is stored on disk -/
+def exDiskSys : Sys := [⟨0, .month, 0, none⟩]
+def exDiskH : Heap := runSide exDiskSys 40 exS [.setInput 0 exM1 [1]] (build ⟨1, [], some ⟨[]⟩⟩ []).2
+def exDiskH' : Heap := (cloneSim exS false exDiskH).2
 
 end OFCore.Heap
